@@ -6,8 +6,9 @@ HISTORY = {
     "C04": "first run: UNDECIDED without a bounded catch (exit 2): numpy.flatnonzero was not modelled; the bounded stand-in only compared predict_proba of a "
            "depth-2 tree.  flatnonzero modelled (the proof then stops on an engine error for this change: still undecided); bounded: decision paths of "
            "deeper trees per row, permuted and by sub-batch",
-    "C05": "caught by the bounded stand-in only (integer features give another fit than the same numbers as floats): coef_ stored in the dtype of X after "
-           "the loop - the fit contract does not pin the stored coefficients to those of the last inner regression",
+    "C05": "first run: bounded stand-in only (integer features give another fit than the same numbers as floats): coef_ stored in the dtype of X after the "
+           "loop.  The fit contract now pins what is stored to the coefficients of the last inner regression, as floats: "
+           "post.stored_coefficients_are_those_of_the_last_inner_regression_as_floats fails (sat) on the integer-feature variant",
     "C08": "first run: MISSED (exit 0): the buffer the bucket outputs are written back into takes the dtype of the query batch.  Bounded: int64 batches at "
            "predict time must give the outputs of the same rows as float64 (regressor and classifier); an integer-feature variant of the predict "
            "contract was tried and did not fail on the change - not kept",
